@@ -420,6 +420,18 @@ def coerce(v, ty):
         # Opt[T] where T is expected: the payload (None here would be a shape
         # violation, assumption A2)
         return Val(ty, v.ty.val(v.term))
+    if isinstance(ty, TRec) and isinstance(v.ty, TRec) and not isinstance(v, PyDict) and \
+       set(ty.fields) == set(v.ty.fields):
+        # a record with the same keys (a plain dict handed to a typed-dict
+        # constructor is cast field by field)
+        return Val(ty, ty.mk(*[coerce(Val(v.ty.fields[f], v.ty.get(v.term, f)), ft).term
+                               for f, ft in ty.fields.items()]))
+    if isinstance(ty, TList) and isinstance(v.ty, TList) and not isinstance(v, PyTuple) and \
+       isinstance(ty.elem, TRec) and isinstance(v.ty.elem, TRec) and \
+       set(ty.elem.fields) == set(v.ty.elem.fields):
+        i = z3.Int(fresh_name('cv'))
+        conv = coerce(Val(v.ty.elem, z3.Select(v.ty.arr(v.term), i)), ty.elem)
+        return Val(ty, ty.mk(z3.Lambda([i], conv.term), v.ty.len(v.term)))
     if ty == TReal and v.ty == TInt:
         return Val(TReal, z3.ToReal(v.term),
                    float(v.py) if v.has_py() else NOPY)
